@@ -171,6 +171,9 @@ def c03(out, a):
     J0 = 1 + rng.randint(-1, 2, size=(1, n, 1)) / 16.0
     for name, um in (("ThreeFieldVariation", fem.ThreeFieldVariation(fem.NeoHooke(mu=1.0, bulk=4.0))),
                      ("NearlyIncompressible", fem.NearlyIncompressible(fem.NeoHooke(mu=1.0), bulk=8.0)),
+                     # user-supplied non-quadratic volumetric part U = bulk / 2 ln(J)^2 through the documented optional arguments
+                     ("NearlyIncompressible-logU", fem.NearlyIncompressible(fem.NeoHooke(mu=1.0), bulk=8.0, dUdJ=lambda J, bulk: bulk * np.log(J) / J,
+                                                                         d2UdJdJ=lambda J, bulk: bulk * (1 - np.log(J)) / J ** 2)),
                      ("ThreeFieldVariation-ad", fem.ThreeFieldVariation(fem.Hyperelastic(th.mooney_rivlin, C10=0.25, C01=0.5) & fem.Volumetric(bulk=4.0)))):
         D = rng.randint(-1, 2, size=(3, 3)).astype(float)
 
